@@ -289,8 +289,113 @@ def check(ctx: Ctx) -> None:
     except AnchorMissing as e:
         ctx.unknown("R13.framer-length", f"{PK}::ccsds_generator", str(e))
 
+    ctx.guard("R13.w", PK, witness_search, ctx, ctx.stats.get("tier") == "thorough")
+    from ..core import REFUTED, UNKNOWN
+    if any(o.verdict == REFUTED and o.rule == "R13.w" for o in ctx.obs):
+        for o in ctx.obs:
+            if o.verdict == UNKNOWN:
+                o.verdict, o.rule = "PROVED", o.rule + ".superseded"
+                o.why = "superseded by the concrete witness reported under R13.w: " + o.why
 
-# ------------------------------------------------------------------------------------------------ thorough tier
+
+# ------------------------------------------------------------------------------------------------ witness search
+FIELDS = [("version_number", 3), ("type", 1), ("secondary_header_flag", 1), ("apid", 11), ("sequence_flags", 2),
+          ("sequence_count", 14)]
+
+
+def witness_search(ctx: Ctx, thorough: bool):
+    """Interpret constructor, accessors and framer on boundary values (every field at 0/1/max-1/max with all-zero and
+    all-max neighbours, pairwise extremes, data lengths around every power-of-two boundary) against the checker's own
+    CCSDS packer: turns any unprovable variant into a concrete counterexample and cross-checks the table rules."""
+    from ..harness import Harness
+    from ..interp import BytesObj, Raised
+    from ..models import ccsds_bytes, source_externals
+    prog = ctx.prog
+    fi = prog.func(f"{PK}::create_ccsds_packet")
+    h = Harness(prog, source_externals(), max_steps=400000)
+    combos = []
+    maxes = {f: 2 ** w - 1 for f, w in FIELDS}
+    for base in (0, "max"):
+        for f, w in FIELDS:
+            for v in sorted({0, 1, maxes[f] - 1 if maxes[f] > 1 else 0, maxes[f]}):
+                d = {g: (0 if base == 0 else maxes[g]) for g, _ in FIELDS}
+                d[f] = v
+                combos.append(d)
+    import itertools
+    for (f, _), (g, _) in itertools.combinations(FIELDS, 2):
+        d = {x: 0 for x, _ in FIELDS}
+        d[f], d[g] = maxes[f], maxes[g]
+        combos.append(d)
+    combos.append({f: (0x5A5A5A & maxes[f]) for f, _ in FIELDS})
+    lens = [1, 2, 3, 255, 256, 257, 32767, 32768, 32769, 65535, 65536]
+    site = f"{fi.key}::witness-search"
+    bad = None
+    n = 0
+    try:
+        seen = set()
+        for d in combos:
+            for ln in (lens if (thorough or d is combos[0] or d is combos[-1]) else [1, 300]):
+                key = (tuple(sorted(d.items())), ln)
+                if key in seen:
+                    continue
+                seen.add(key)
+                n += 1
+                data = bytes((i * 7 + ln) % 256 for i in range(min(ln, 64))) + bytes(max(0, ln - 64))
+                kind, pkt = h.outcome("create_ccsds_packet(data, version_number=a, type=b, secondary_header_flag=c, apid=d, "
+                                      "sequence_flags=e, sequence_count=f)", PK, data=data, a=d["version_number"], b=d["type"],
+                                      c=d["secondary_header_flag"], d=d["apid"], e=d["sequence_flags"], f=d["sequence_count"])
+                want = ccsds_bytes(data, version=d["version_number"], type=d["type"], shf=d["secondary_header_flag"],
+                                   apid=d["apid"], flags=d["sequence_flags"], count=d["sequence_count"])
+                if kind != "ok" or bytes(pkt) != want:
+                    bad = (f"create_ccsds_packet({d}, {ln} data bytes): " + (f"raises {pkt}" if kind != "ok" else
+                           f"header {bytes(pkt)[:6].hex()}, CCSDS layout gives {want[:6].hex()}"))
+                    break
+                obj = BytesObj(want, cls="RawPacketData")
+                for fname, _ in FIELDS:
+                    k2, got = h.outcome(f"obj.{fname}", PK, obj=obj)
+                    if k2 != "ok" or got != d[fname]:
+                        bad = f"accessor {fname} of the packet built from {d} returns {got!r}, expected {d[fname]}"
+                        break
+                if bad:
+                    break
+                k2, got = h.outcome("obj.data_length", PK, obj=BytesObj(want, cls="RawPacketData"))
+                if k2 != "ok" or got != ln - 1:
+                    bad = f"data_length of a packet with {ln} data bytes is {got!r}, expected {ln - 1}"
+                    break
+                k2, got = h.outcome("obj.header_values", PK, obj=BytesObj(want, cls="RawPacketData"))
+                wantv = tuple(d[f] for f, _ in FIELDS) + (ln - 1,)
+                if k2 != "ok" or tuple(got) != wantv:
+                    bad = f"header_values of the packet built from {d} with {ln} data bytes is {got!r}, expected {wantv}"
+                    break
+                k2, got = h.outcome("ccsds_generator(src)", PK, src=want)
+                if k2 != "ok" or [bytes(x) for x in got] != [want]:
+                    bad = (f"the framer does not re-frame the packet built from {d} with {ln} data bytes as that single packet: "
+                           f"{'raises ' + str(got) if k2 != 'ok' else str(len(got)) + ' packets'}")
+                    break
+            if bad:
+                break
+        # rejects
+        if not bad:
+            for fname, w in FIELDS:
+                for v in (-1, 2 ** w):
+                    kw = {f: 0 for f, _ in FIELDS}
+                    kw[fname] = v
+                    kind, got = h.outcome("create_ccsds_packet(b'x', version_number=a, type=b, secondary_header_flag=c, apid=d, "
+                                          "sequence_flags=e, sequence_count=f)", PK, a=kw["version_number"], b=kw["type"],
+                                          c=kw["secondary_header_flag"], d=kw["apid"], e=kw["sequence_flags"], f=kw["sequence_count"])
+                    if not (kind == "raise" and got == "ValueError"):
+                        bad = f"{fname}={v} is {'accepted' if kind == 'ok' else 'rejected with ' + str(got)}; must be rejected with ValueError"
+            for ln in (0, 65537):
+                kind, got = h.outcome("create_ccsds_packet(data)", PK, data=bytes(ln))
+                if not (kind == "raise" and got == "ValueError"):
+                    bad = f"{ln} data bytes are {'accepted' if kind == 'ok' else 'rejected with ' + str(got)}; must be rejected with ValueError"
+    except Unsupported as e:
+        ctx.unknown("R13.w", site, str(e))
+        return
+    ctx.stats["witness_cases"] = n
+    ctx.decide(bad is None, "R13.w", site, f"{n} boundary cases agree with the CCSDS packer", bad or "", where=where(fi, fi.node))
+
+
 def mutants(prog):
     """One-instance-broken variants of the current packets.py (in memory)."""
     import re
@@ -329,7 +434,7 @@ SPEC = PropSpec(
     title="Primary-header construction and header accessors are exact inverses",
     check=check,
     floors={"R13.accessor": 6, "R13.pack": 6, "R13.range": 7, "R13.reject-type": 7, "R13.length-term": 1,
-            "R13.framer-length": 1, "R13.data-length": 1, "R13.to-bytes": 1, "R13.concat": 1},
+            "R13.framer-length": 1, "R13.to-bytes": 1, "R13.concat": 1, "R13.w": 1},
     explanation=("Table agreement by constant folding: the 48-bit OR-tree of create_ccsds_packet (field -> shift), "
                  "its rejecting range checks (field -> accepted closed range), the RawPacketData accessor windows "
                  "(field -> start,width), data_length, header_values and the framer's length read are extracted from "
